@@ -193,6 +193,61 @@ def angle_reject(V):
         return
     V.fail("start>end accepted")
 
+
+@obligation("C16", "angle.reassigned-end-point", functions=F + ["commonroad/common/util.py:AngleInterval.start", "commonroad/common/util.py:AngleInterval.end"],
+            bounds="angle interval as above, queried once (so that anything derived from the end points exists), then start or end re-assigned "
+                   "through the public setter to any admissible value (length stays < 2pi), then queried again; x in [-2pi,2pi]")
+def angle_reassigned(V):
+    a, b = _angle_iv(V)
+    x0, x = V.real("x_before", -TWO_PI, TWO_PI), V.real("x", -TWO_PI, TWO_PI)
+    iv = AngleInterval(a, b)
+    V.prove("before: theta in I <=> theta+2pi k in [a,b]", V.iff(x0 in iv, _mod_contains(V, a, b, x0)))
+    iv.contains(x0), iv.length
+    s0, e0 = iv.start, iv.end
+    n = V.real("new_end_point", -TWO_PI, TWO_PI)
+    if V.choice("which", 2) == 0:
+        V.assume(V.And(n >= s0, n - s0 < TWO_PI))
+        iv.end = n
+        s1, e1 = s0, n
+    else:
+        V.assume(V.And(n <= e0, e0 - n < TWO_PI))
+        iv.start = n
+        s1, e1 = n, e0
+    V.prove("after: end points are the assigned ones", V.And(V.eq(iv.start, s1), V.eq(iv.end, e1), V.eq(iv.length, e1 - s1)))
+    spec = _mod_contains(V, s1, e1, x)
+    V.prove("after: theta in I <=> theta+2pi k in the new [start,end]", V.iff(x in iv, spec))
+    V.prove("after: contains(theta) <=> theta+2pi k in the new [start,end]", V.iff(iv.contains(x), spec))
+    c, d = V.real("c", -TWO_PI, TWO_PI), V.real("d", -TWO_PI, TWO_PI)
+    V.assume(V.And(c <= d, d - c < TWO_PI))
+    V.prove("after: contains(AngleInterval) <=> every point contained", V.iff(iv.contains(AngleInterval(c, d)), V.exists_int(
+        -3, 3, lambda k: V.And(s1 <= c + TWO_PI * k, d + TWO_PI * k <= e1))))
+
+
+@obligation("C16", "interval.reassigned-end-point", functions=F, bounds="real end points; start or end re-assigned through the public setter after a query")
+def interval_reassigned(V):
+    a, b, x0, x = V.real("a"), V.real("b"), V.real("x_before"), V.real("x")
+    V.assume(a <= b)
+    iv = Interval(a, b)
+    V.prove("before", V.iff(iv.contains(x0), V.And(a <= x0, x0 <= b)))
+    iv.length
+    n = V.real("new_end_point")
+    if V.choice("which", 2) == 0:
+        V.assume(n >= a)
+        iv.end = n
+        s1, e1 = a, n
+    else:
+        V.assume(n <= b)
+        iv.start = n
+        s1, e1 = n, b
+    V.prove("after: contains <=> in the new [start,end]", V.iff(iv.contains(x), V.And(s1 <= x, x <= e1)))
+    V.prove("after: x in I <=> in the new [start,end]", V.iff(x in iv, V.And(s1 <= x, x <= e1)))
+    V.prove("after: length", V.eq(iv.length, e1 - s1))
+    c, d = V.real("c"), V.real("d")
+    V.assume(c <= d)
+    o = Interval(c, d)
+    V.prove("after: overlaps <=> sets meet", V.iff(iv.overlaps(o), V.And(s1 <= d, c <= e1)))
+    V.prove("after: contains(interval) <=> subset", V.iff(iv.contains(o), V.And(s1 <= c, d <= e1)))
+
 _U = "commonroad.common.util:"
 MUTANTS = [
     dict(name="contains-open-right", target=_U + "Interval.contains", old="self.start <= other <= self.end", new="self.start <= other < self.end"),
